@@ -75,6 +75,7 @@ def handle(ch, out, ops, cfgfile=None):
                 import time
                 time.sleep(1)          # a scheduling point of the harness: the command starts when the schedule says so
                 shutil.rmtree(out)
+                ch.call(op="api", name="recreated")
                 os.makedirs(out)
                 cluster = Cluster.create(out, create_config_from_file(cfgfile))
                 ok = True
